@@ -207,16 +207,38 @@ theorem sem_accessor (st : St) (tid d : Nat) (ok w tyOk : Bool) (wacts : List Ac
     simp [sem, exec, isGuard, Variant_toString, Variant_toList, Variant_toArray, Variant_toMap, accCtx, emit, evalC, evalP, setP]
 
 /-- `operator=(const String&/List&/Array&/HashMap&)` of Variant and `operator=(const String&)` of Xml::Variant: `clear()`, then
-    a fresh box -/
+    a fresh box — or the fresh box first and then `clear()` (the new value is built from the argument: which of the two private
+    steps comes first touches no counter; harmless change C09-h4) -/
 theorem sem_assignT (st : St) (tid d : Nat) (ok w tyOk : Bool) (wacts : List Act) (allocOf : Nat → List Act) :
     ∀ body, body ∈ [Variant_assignString, Variant_assignList, Variant_assignArray, Variant_assignMap, XmlVariant_assignString] →
       sem (accCtx st tid d 1 ok w tyOk wacts allocOf) body = [.readRef d ok]
-      ∧ sem (accCtx st tid d 2 ok w tyOk wacts allocOf) body = if w then wacts else [.dec d, .free] ++ allocOf d := by
+      ∧ (sem (accCtx st tid d 2 ok w tyOk wacts allocOf) body = (if w then wacts else [.dec d, .free] ++ allocOf d)
+         ∨ sem (accCtx st tid d 2 ok w tyOk wacts allocOf) body =
+             (if w then wacts else allocOf (tmpT tid) ++ [.dec d, .free, .move d (tmpT tid)])) := by
   intro body hb
   simp only [List.mem_cons, List.not_mem_nil, or_false] at hb
-  rcases hb with rfl | rfl | rfl | rfl | rfl <;> cases w <;>
-    simp [sem, exec, isGuard, Variant_assignString, Variant_assignList, Variant_assignArray, Variant_assignMap, XmlVariant_assignString,
-      accCtx, emit, evalC, evalP, setP]
+  rcases hb with rfl | rfl | rfl | rfl | rfl <;> refine ⟨?_, ?_⟩ <;> cases w <;>
+    first
+    | (simp [sem, exec, isGuard, Variant_assignString, Variant_assignList, Variant_assignArray, Variant_assignMap, XmlVariant_assignString,
+        accCtx, emit, evalC, evalP, setP]; done)
+    | (left; simp [sem, exec, isGuard, Variant_assignString, Variant_assignList, Variant_assignArray, Variant_assignMap, XmlVariant_assignString,
+        accCtx, emit, evalC, evalP, setP]; done)
+    | (right; simp [sem, exec, isGuard, Variant_assignString, Variant_assignList, Variant_assignArray, Variant_assignMap, XmlVariant_assignString,
+        accCtx, emit, evalC, evalP, setP]; done)
+
+/-- a model list `if w then wa else clear(); fresh box` is the translated body, or the translated body is the same with the fresh box
+    allocated first -/
+theorem assignT_post {st : St} {tid d : Nat} {w tyOk : Bool} {wa postL : List Act} {al : Nat → List Act} {body : Stmt}
+    (hb : body ∈ [Variant_assignString, Variant_assignList, Variant_assignArray, Variant_assignMap, XmlVariant_assignString])
+    (hpost : postL = if w then wa else [.dec d, .free] ++ al d) :
+    postL = sem (accCtx st tid d 2 true w tyOk wa al) body
+    ∨ (w = false ∧ sem (accCtx st tid d 2 true w tyOk wa al) body = al (tmpT tid) ++ [.dec d, .free, .move d (tmpT tid)]
+        ∧ postL = [.dec d, .free] ++ al d) := by
+  rcases (sem_assignT st tid d true w tyOk wa al body hb).2 with h | h
+  · left; rw [h, hpost]
+  · cases w
+    · right; exact ⟨rfl, by simpa using h, by simpa using hpost⟩
+    · left; rw [h, hpost]; simp
 
 /-- `Xml::Variant::toElement()` (three branches, repaired by D16) -/
 theorem sem_toElement (st : St) (tid d : Nat) (ok w tyOk : Bool) (wacts : List Act) (allocOf : Nat → List Act) :
@@ -271,26 +293,32 @@ theorem tie_Variant_toList_toArray (st s1 : St) (tid d x : Nat) :
     · rw [(sem_accessor _ _ _ _ _ _ _ _ Variant_toArray (by simp)).2]; simp only [postN, appendN, storeOpt]
       cases isWriting s1 tid <;> cases blkOfTag s1 d tagVArr <;> simp
 
-/-- `V[d] = String / List / Array / HashMap` and `X[d] = String`: in place (the container assignment releases the old boxed
-    elements: `dropEmb`) or `clear()` and a fresh box -/
+/-- `V[d] = String / List / Array / HashMap` and `X[d] = String`: `pre` = the body up to the read; `post` = the body from the read on:
+    in place (the container assignment releases the old boxed elements: `dropEmb`) or `clear()` and a fresh box (`AssignTie`: or the
+    fresh box first, see `assignT_post`) -/
+def AssignTie (s1 : St) (tid d : Nat) (postL wa : List Act) (al : Nat → List Act) (body : Stmt) : Prop :=
+  postL = sem (accCtx s1 tid d 2 true (isWriting s1 tid) true wa al) body
+  ∨ (isWriting s1 tid = false ∧ sem (accCtx s1 tid d 2 true (isWriting s1 tid) true wa al) body = al (tmpT tid) ++ [.dec d, .free, .move d (tmpT tid)]
+      ∧ postL = [.dec d, .free] ++ al d)
+
 theorem tie_assignT (st s1 : St) (tid d : Nat) :
     (∀ bytes, ∃ wa, pre st tid (.vSetStr d bytes) = sem (accCtx st tid d 1 (blkTag st d == some tagVStr) false true wa (fun t => [.alloc t tagVStr bytes 0])) Variant_assignString
-        ∧ post s1 tid (.vSetStr d bytes) = sem (accCtx s1 tid d 2 true (isWriting s1 tid) true wa (fun t => [.alloc t tagVStr bytes 0])) Variant_assignString)
+        ∧ AssignTie s1 tid d (post s1 tid (.vSetStr d bytes)) wa (fun t => [.alloc t tagVStr bytes 0]) Variant_assignString)
     ∧ (∀ k x, ∃ wa, pre st tid (.vSetMap d k x) = sem (accCtx st tid d 1 (blkTag st d == some tagVMap) false true wa (fun t => [.alloc t tagVMap [k, x] 0])) Variant_assignMap
-        ∧ post s1 tid (.vSetMap d k x) = sem (accCtx s1 tid d 2 true (isWriting s1 tid) true wa (fun t => [.alloc t tagVMap [k, x] 0])) Variant_assignMap)
+        ∧ AssignTie s1 tid d (post s1 tid (.vSetMap d k x)) wa (fun t => [.alloc t tagVMap [k, x] 0]) Variant_assignMap)
     ∧ (∀ x, ∃ wa, preN st tid (.flat (.vSetList d x)) = sem (accCtx st tid d 1 (blkTag st d == some tagVList) false true wa (fun t => [.alloc t tagVList [x] 0])) Variant_assignList
-        ∧ postN s1 tid (.flat (.vSetList d x)) = sem (accCtx s1 tid d 2 true (isWriting s1 tid) true wa (fun t => [.alloc t tagVList [x] 0])) Variant_assignList)
+        ∧ AssignTie s1 tid d (postN s1 tid (.flat (.vSetList d x))) wa (fun t => [.alloc t tagVList [x] 0]) Variant_assignList)
     ∧ (∀ x, ∃ wa, preN st tid (.flat (.vSetArr d x)) = sem (accCtx st tid d 1 (blkTag st d == some tagVArr) false true wa (fun t => [.alloc t tagVArr [x] 0])) Variant_assignArray
-        ∧ postN s1 tid (.flat (.vSetArr d x)) = sem (accCtx s1 tid d 2 true (isWriting s1 tid) true wa (fun t => [.alloc t tagVArr [x] 0])) Variant_assignArray)
+        ∧ AssignTie s1 tid d (postN s1 tid (.flat (.vSetArr d x))) wa (fun t => [.alloc t tagVArr [x] 0]) Variant_assignArray)
     ∧ (∀ bytes, ∃ wa, pre st tid (.xSetStr d bytes) = sem (accCtx st tid d 1 (blkTag st d == some tagXText) false true wa (fun t => [.alloc t tagXText bytes 0])) XmlVariant_assignString
-        ∧ post s1 tid (.xSetStr d bytes) = sem (accCtx s1 tid d 2 true (isWriting s1 tid) true wa (fun t => [.alloc t tagXText bytes 0])) XmlVariant_assignString) := by
+        ∧ AssignTie s1 tid d (post s1 tid (.xSetStr d bytes)) wa (fun t => [.alloc t tagXText bytes 0]) XmlVariant_assignString) := by
   refine ⟨fun bytes => ⟨[.write bytes], ?_, ?_⟩, fun k x => ⟨[.write [k, x]], ?_, ?_⟩,
     fun x => ⟨[.write [x]] ++ (match blkOfTag s1 d tagVList with | some c => dropEmb tid c d (embKs s1 c) | none => []), ?_, ?_⟩,
     fun x => ⟨[.write [x]] ++ (match blkOfTag s1 d tagVArr with | some c => dropEmb tid c d (embKs s1 c) | none => []), ?_, ?_⟩,
     fun bytes => ⟨[.write bytes], ?_, ?_⟩⟩ <;>
   first
   | (rw [(sem_assignT _ _ _ _ _ _ _ _ _ (by simp)).1]; try rfl)
-  | (rw [(sem_assignT _ _ _ _ _ _ _ _ _ (by simp)).2]; simp only [post, postN]
+  | (refine assignT_post (by simp) ?_; simp only [post, postN]
      cases isWriting s1 tid <;> simp [cloneReleaseFirst] <;> try rfl)
 
 /-- `X[d].toElement().type = bytes` (`postN`: the clone of a shared element copies the children before the release) -/
@@ -358,10 +386,10 @@ theorem tie_Ptr_fields_mirror :
 def twoObjs : St := (apiRun (init nTotal) 0 [.pNew 12 1, .pNew 13 2]).getD (init nTotal)
 
 example : sem (ptrCtx twoObjs twoObjs 0 12 13)
-    (.seq (.bind .other) (.seq (.release .self) (.seq (.ite (.counted (.loc 0)) (.inc (.loc 0)) .skip) (.store .self (.loc 0)))))
-    = [.dec 12, .free, .inc 17 13, .move 12 17]
+    (.seq (.bind 0 .other) (.seq (.release .self) (.seq (.ite (.counted (.loc 0)) (.inc (.loc 0)) .skip) (.store .self (.loc 0)))))
+    = [.dec 12, .free, .inc 12 13]
     ∧ noClr (pre twoObjs 0 (.pAssign 12 13)) = [.inc 17 13, .dec 12, .free, .move 12 17] := by
   constructor <;> rfl
-example : fieldsMirror (.seq (.bindO .other) (.seq (.storeO .other .self) (.storeO .self (.loc 0)))) = false := by decide
+example : fieldsMirror (.seq (.bindO 0 .other) (.seq (.storeO .other .self) (.storeO .self (.loc 0)))) = false := by decide
 
 end Nstd.Rc
